@@ -97,6 +97,12 @@ class Encrypt(Machine):
         fws = [[self.odd_stem(s, f"fw{i}"), s.choice(SIZES)] for i in range(nf)]
         dirs = [s.choice(["dA", "dA", "d.A", "d A", ".dA"])] + (["dB"] if s.chance(0.4) else [])
         ops = [{"kind": "setup", "i": 0, "keys": keys, "fws": fws, "dirs": dirs}]
+        bulk_n = 0
+        if prop == "C14" and not kstyle == "dotted":
+            if tier == "thorough":
+                bulk_n = s.choice([0, 0, 0, 0, 5000, 20000, 100000])
+            elif s.chance(0.1):
+                bulk_n = s.choice([1000, 3000])
         if long_history:
             n = s.choice([200, 500]) if tier == "quick" else s.choice([500, 1000, 2000])
         else:
@@ -118,6 +124,9 @@ class Encrypt(Machine):
                     op = {"kind": "fork", "i": i, "fw": fws[0][0], "key": keys[0], "n": s.randint(1, 3)}
                 else:
                     op = {"kind": "clock", "i": i, "jump": s.choice([-3600.0, -1.0, 0.0, 86400.0])}
+            elif bulk_n and len(ops) == 3:
+                op = {"kind": "bulk", "i": i, "key": next(k for k in keys if "." not in k), "n": bulk_n,
+                      "fws": [f[0] for f in fws[:2]]} if any("." not in k for k in keys) else {"kind": "restart", "i": i}
             elif r < 0.55 or last_enc is None:
                 if last_enc is not None and s.chance(0.35):
                     op = dict(last_enc, i=i)  # identical plaintext and key again
@@ -218,6 +227,8 @@ class Encrypt(Machine):
             return []
         if k == "fork":
             return self._fork(host, model, op, prop)
+        if k == "bulk":
+            return self._bulk(host, model, op, prop)
         if k == "enc":
             return self._enc(host, model, op, faults, prop)
         if k == "geninfo":
@@ -225,6 +236,64 @@ class Encrypt(Machine):
         if k == "create_with_info":
             return self._create_with_info(host, model, op, faults, prop)
         return []
+
+    def _bulk(self, host, model, op, prop):
+        """The quantifier's long history: one key, one interpreter, n encryptions through the KMS interface in one tool
+        call (n = 10^5 in the thorough tier).  Every IV joins the key's history; one ciphertext in 997 and the last one
+        are decrypted under their published IV."""
+        ex = model["_extra"]
+        if prop != "C14":
+            model["_abstract"] = "skipped"
+            return []
+        n = op["n"]
+        name = op["key"]
+        key = model["keys"][name]
+        plains = [model["fws"][f] for f in op["fws"]]
+        ctx = host.path("keys")
+        aad = cose.enc_structure(PROTECTED)
+
+        def run():
+            import importlib
+
+            kms = importlib.import_module("ncs.basic_kms").suit_kms_factory()
+            kms.init_kms(ctx)
+            ivs, samples = [], []
+            for j in range(n):
+                pt = plains[j % len(plains)]
+                nonce, tag, ct = kms.encrypt(pt, name, ctx, aad)
+                ivs.append(bytes(nonce))
+                if j % 997 == 0 or j == n - 1:
+                    samples.append((j, bytes(nonce), bytes(tag), bytes(ct)))
+            return ivs, samples
+
+        o = host.tool(run, kind="encrypt_bulk", timeout=900.0)
+        self.note(model, o)
+        model["_abstract"] = ("bulk", n >= 10000, o.cls)
+        if not o.ok:
+            return [violation("C14", "valid-operation-failed", op["i"],
+                              f"{n} encryptions in one interpreter: {o.cls} {o.exc_type}: {o.exc_msg}", cls="unexpected-failure",
+                              site=o.site)]
+        ivs, samples = o.value
+        seen = model["ivs"].setdefault(name, {})
+        vs = []
+        for j, iv in enumerate(ivs):
+            if len(iv) != 12:
+                return [violation("C14", "iv-width", op["i"], f"encryption {j} of {n}: IV has {len(iv)} bytes")]
+            if iv in seen:
+                return [violation("C14", "iv-reuse", op["i"],
+                                  f"IV {iv.hex()} used for key {name} at {seen[iv]} and again at encryption {j} of a history of {n}")]
+            seen[iv] = f"op {op['i']} #{j}"
+        for j, iv, tag, ct in samples:
+            if cose.aesgcm_decrypt(key, iv, ct, tag, aad) != plains[j % len(plains)]:
+                vs.append(violation("C14", "published-iv-not-used", op["i"],
+                                    f"encryption {j} of {n}: ciphertext does not authenticate under its IV {iv.hex()}"))
+                break
+        ex["encryptions_ok"] += n
+        ex["max_bulk_history"] = max(ex.get("max_bulk_history", 0), n)
+        if len(seen) > ex["max_encryptions_per_key"]:
+            ex["max_encryptions_per_key"] = len(seen)
+        model["_nontrivial"] = True
+        return vs
 
     # -- encrypt-and-generate ------------------------------------------------------------------------------
     def _stale(self, host, model, op):
